@@ -4,6 +4,7 @@
    observation with oracles that do not go through the model's algorithms. *)
 From SC Require Export Base.Prelude Traits.Str Traits.Parent Traits.Vending Traits.FanSpeed Traits.ModeTrait
   Traits.EnterLeave Traits.Meter Traits.Publication Traits.Options Traits.Store Traits.VendingStore Traits.FanMask.
+From SC Require Export Msg.Msg Msg.Schema Msg.Path Masks.Get Traits.MeterMask Traits.StockMask Traits.PubStore Traits.TraitPull Traits.TraitPullProofs.
 From Coq Require Import QArith Qabs.
 Open Scope Z_scope.
 
@@ -21,7 +22,117 @@ Inductive c20case :=
 | KPub (now : Z) (pre : option pub) (o : pubop) (obs : pout) (post : option pub) (hpre hpost : string)
 | KNew (model : Z) (dflt opts : list mopt) (panicked : bool) (obs : list rstate)
 | KVStore (pre : vstate) (names_ok : bool) (o : vop) (obs : vres) (post : vstate)
-| KFanMask (ps : list preset) (pre req : fan) (m : option fmask) (obs : fout) (post : fan).
+| KFanMask (ps : list preset) (pre req : fan) (m : option fmask) (obs : fout) (post : fan)
+| KMeterSeq (pre : mmeter) (o : mmop) (code : Z) (ret : option mmeter) (post : mmeter)
+| KSchema (dumped : schema)
+| KStockMask (name : string) (pre : option zstock) (req : zstock) (um : mask) (code : Z) (ret_ok : bool)
+             (post : option zstock) (other_same : bool)
+| KPubs (now : Z) (pre : pubs) (o : pubop) (cands : list string) (obs : pout) (post : pubs) (hpre hpost : string)
+| KPullEL (uo : bool) (s0 : elev) (t0 : Z) (ops : list (elop * Z)) (acc : list bool) (stream : list (elev * Z)) (gets : list elev)
+| KPullMeter (uo : bool) (s0 : mmeter) (t0 : Z) (ops : list (mmop * Z)) (acc : list bool) (stream : list (mmeter * Z)) (gets : list mmeter)
+| KPullFan (uo : bool) (ps : list preset) (s0 : fan) (t0 : Z) (ops : list (fan * bool * Z)) (acc : list bool) (stream : list (fan * Z)) (gets : list fan).
+
+(* ---- meter with arbitrary update masks (paths) ---- *)
+Definition ts_eqb (a b : ts) : bool := (fst a =? fst b) && (snd a =? snd b).
+Definition mm_eqb (a b : mmeter) : bool :=
+  (mm_usage a =? mm_usage b) && option_eqb ts_eqb (mm_start a) (mm_start b) && option_eqb ts_eqb (mm_end a) (mm_end b).
+(* independent of [covers]/[touches]: a path can only reach field f when its first segment is f *)
+Definition path_heads (f : string) (ups : list path) : bool :=
+  existsb (fun u => match u with [] => true | s :: _ => String.eqb s f end) ups.
+Definition names_exactly (f : string) (ups : list path) : bool :=
+  existsb (fun u => match u with [s] => String.eqb s f | _ => false end) ups.
+Definition meter_seq_ok (pre : mmeter) (o : mmop) (code : Z) (ret : option mmeter) (post : mmeter) : bool :=
+  if negb (code =? 0) then mm_eqb post pre && match ret with None => true | Some _ => false end
+  else
+    option_eqb mm_eqb ret (Some post) &&
+    match o with
+    | MMRecord v t => mm_eqb post (mkMM v (mm_start pre) (Some (t, 0)))
+    | MMReset t => mm_eqb post (mkMM 0 (Some (t, 0)) (Some (t, 0)))
+    | MMUpdate None req => mm_eqb post req
+    | MMUpdate (Some ups) req =>
+        (path_heads "usage" ups || (mm_usage post =? mm_usage pre))
+        && (path_heads "start_time" ups || option_eqb ts_eqb (mm_start post) (mm_start pre))
+        && (path_heads "end_time" ups || option_eqb ts_eqb (mm_end post) (mm_end pre))
+        && (negb (names_exactly "usage" ups) || (mm_usage post =? mm_usage req))
+        && (negb (names_exactly "start_time" ups) || match mm_start req with None => match mm_start post with None => true | _ => false end
+                                                                          | Some _ => match mm_start post with Some _ => true | None => false end end)
+    end.
+Definition meter_seq_agrees (pre : mmeter) (o : mmop) (code : Z) (ret : option mmeter) (post : mmeter) : bool :=
+  mm_eqb post (mm_step pre o) &&
+  match o with
+  | MMUpdate um req =>
+      (code =? fst (mm_update um pre req)) &&
+      match mm_update_tree um pre req with
+      | Some (c, p) => (code =? c) && mm_eqb post p
+      | None => false
+      end
+  | _ => code =? 0
+  end.
+
+Definition skind_eqb (a b : skind) : bool :=
+  match a, b with KInt, KInt | KBool, KBool | KStr, KStr | KBytes, KBytes | KEnum, KEnum | KF32, KF32 | KF64, KF64 => true | _, _ => false end.
+Definition fdesc_eqb (a b : fdesc) : bool :=
+  String.eqb (fname a) (fname b) && (fnum a =? fnum b)
+  && match fcard a, fcard b with CSingular, CSingular | CList, CList | CMap, CMap => true | _, _ => false end
+  && match fkd a, fkd b with FScalar x, FScalar y => skind_eqb x y | FMsg x, FMsg y => String.eqb x y | _, _ => false end
+  && option_eqb skind_eqb (fkey a) (fkey b) && Bool.eqb (fexplicit a) (fexplicit b) && option_eqb String.eqb (foneof a) (foneof b).
+(* every hand-written message type is exactly what the Go descriptors say *)
+Definition schema_agrees (hand dumped : schema) : bool :=
+  forallb (fun e => match alookup (fst e) dumped with Some fs => list_eqb fdesc_eqb (snd e) fs | None => false end) hand.
+
+(* ---- stock with arbitrary update masks (paths) ---- *)
+Definition zq_eqb (a b : Z * Z) : bool := (fst a =? fst b) && (snd a =? snd b).
+Definition ps_eqb (a b : zstock) : bool :=
+  option_eqb zq_eqb (ps_used a) (ps_used b) && option_eqb zq_eqb (ps_rem a) (ps_rem b)
+  && option_eqb zq_eqb (ps_last a) (ps_last b) && Bool.eqb (ps_disp a) (ps_disp b).
+(* the update is the generic store's Update step on the one-record store with the path merge function, and the
+   generic FieldUpdater model on the encoded trees gives the same record *)
+Definition stock_mask_agrees (name : string) (pre : option zstock) (req : zstock) (um : mask) (code : Z)
+           (post : option zstock) : bool :=
+  let s := match pre with Some o => [(name, o)] | None => [] end in
+  let '(out, s') := sstep zupdate (@stock_mask_bad) s (SUpdate name req um) in
+  match out with
+  | SOk n r => (code =? 0) && String.eqb n name && option_eqb ps_eqb post (Some r)
+  | SErr c => (code =? c) && option_eqb ps_eqb post pre
+  | SNil => false
+  end
+  && option_eqb ps_eqb post (sfind name s')
+  && match pre with
+     | Some o => match zupdate_tree name um o req with
+                 | Some (c, p) => (code =? c) && option_eqb ps_eqb post (Some p)
+                 | None => false
+                 end
+     | None => true
+     end.
+Definition same_unless (touched : bool) (a b : option (Z * Z)) : bool := touched || option_eqb zq_eqb a b.
+Definition stock_mask_ok (pre : option zstock) (req : zstock) (um : mask) (code : Z) (ret_ok : bool)
+           (post : option zstock) (other_same : bool) : bool :=
+  ret_ok && other_same &&
+  match pre, post with
+  | None, None => negb (code =? 0)
+  | Some o, Some p =>
+      if negb (code =? 0) then ps_eqb p o else
+      match um with
+      | None => ps_eqb p req
+      | Some ups =>
+          same_unless (path_heads "used" ups) (ps_used p) (ps_used o)
+          && same_unless (path_heads "remaining" ups) (ps_rem p) (ps_rem o)
+          && same_unless (path_heads "last_dispensed" ups) (ps_last p) (ps_last o)
+          && (path_heads "dispensing" ups || Bool.eqb (ps_disp p) (ps_disp o))
+          && (negb (names_exactly "dispensing" ups) || Bool.eqb (ps_disp p) (ps_disp req))
+          (* only used.amount named under "used": the unit is the stored one *)
+          && (negb (forallb (fun u => match u with s0 :: r => negb (String.eqb s0 "used") || list_eqb String.eqb r ["amount"%string] | [] => false end) ups
+                    && path_heads "used" ups)
+              || match ps_used o, ps_used p with
+                 | Some a, Some b => fst a =? fst b
+                 | None, None => true
+                 | None, Some b => match ps_used req with Some _ => fst b =? 0 | None => false end
+                 | Some _, None => false
+                 end)
+      end
+  | _, _ => false
+  end.
+
 
 Definition children_eqb (a b : children) : bool :=
   list_eqb (fun x y => String.eqb (fst x) (fst y) && strs_eqb (snd x) (snd y)) a b.
@@ -457,6 +568,78 @@ Definition vstore_agrees (pre : vstate) (o : vop) (obs : vres) (post : vstate) :
       end && store_eqb stock_eqb (fst s') (fst post) && store_eqb cons_eqb (snd s') (snd post)
   end.
 
+(* ---- publication collection over all ids, generated ids ---- *)
+Definition pubs_eqb (a b : pubs) : bool :=
+  list_eqb (fun x y => String.eqb (fst x) (fst y) && pub_eqb (snd x) (snd y)) a b.
+(* the id the operation addresses: for a create without id, the id of the publication the server answered with *)
+Definition pubs_addressed (o : pubop) (obs : pout) : string :=
+  if needs_gen o then match obs with POk n => p_id n | _ => EmptyString end else pub_op_id o.
+Definition pubs_hash (pre : pubs) (o : pubop) (obs : pout) (post : pubs) (hpre hpost : string) : content -> string :=
+  let id := pubs_addressed o obs in local_hash (sfind id pre) (sfind id post) hpre hpost.
+Definition pubs_agrees (now : Z) (pre : pubs) (o : pubop) (cands : list string) (obs : pout) (post : pubs) (hpre hpost : string) : bool :=
+  let '(out, p') := pubs_step_c (pubs_hash pre o obs post hpre hpost) pre o cands now in
+  pout_eqb obs out && pubs_eqb post p'.
+(* the freshness clause, on the observation: g is the first of the first ten candidates that is non-empty and unused *)
+Fixpoint first_fresh_is (g : string) (cands : list string) (n : nat) (pre : pubs) : bool :=
+  match n, cands with
+  | S n', c :: r =>
+      if String.eqb c g then true
+      else (String.eqb c EmptyString || match sfind c pre with Some _ => true | None => false end) && first_fresh_is g r n' pre
+  | _, _ => false
+  end.
+Definition pubs_ok (now : Z) (pre : pubs) (o : pubop) (cands : list string) (obs : pout) (post : pubs) (hpre hpost : string) : bool :=
+  let id := pubs_addressed o obs in
+  store_wf post
+  && forallb (fun e => String.eqb (fst e) (p_id (snd e))) post
+  && forallb (fun e => String.eqb (fst e) id || option_eqb pub_eqb (sfind (fst e) post) (Some (snd e))) pre
+  && forallb (fun e => String.eqb (fst e) id || option_eqb pub_eqb (sfind (fst e) pre) (Some (snd e))) post
+  && if needs_gen o then
+       match obs with
+       | POk n =>
+           negb (String.eqb (p_id n) EmptyString)
+           && match sfind (p_id n) pre with None => true | Some _ => false end
+           && first_fresh_is (p_id n) cands 10 pre
+           && pub_ok now None (pub_norm_op o (p_id n)) obs (sfind (p_id n) post) hpre hpost
+       | PErr c => (c =? 10) && pubs_eqb post pre
+                   && negb (existsb (fun c => negb (String.eqb c EmptyString) && match sfind c pre with None => true | Some _ => false end) (firstn 10 cands))
+       | PNil => false
+       end
+     else pub_ok now (sfind id pre) o obs (sfind id post) hpre hpost.
+
+(* ---- Pull streams of the one-value trait models ---- *)
+(* independent of the stream model: the changes after the seed are the getter values after the accepted
+   operations, in order, with the operations' clock readings; the last change is the current getter value *)
+Fixpoint accepted_of {A B : Type} (acc : list bool) (ops : list (A * Z)) (gets : list B) : list (B * Z) :=
+  match acc, ops, gets with
+  | a :: acc', o :: ops', v :: gets' => (if a then [(v, snd o)] else []) ++ accepted_of acc' ops' gets'
+  | _, _, _ => []
+  end.
+Fixpoint drop_repeats {B : Type} (eqb : B -> B -> bool) (held : option B) (l : list (B * Z)) : list (B * Z) :=
+  match l with
+  | [] => []
+  | x :: r => if match held with Some h => eqb h (fst x) | None => false end then drop_repeats eqb held r
+              else x :: drop_repeats eqb (Some (fst x)) r
+  end.
+Definition pull_ok {A B : Type} (eqb : B -> B -> bool) (view : B -> B) (dedupe : bool) (uo : bool) (s0 : B) (t0 : Z)
+           (ops : list (A * Z)) (acc : list bool) (stream : list (B * Z)) (gets : list B) : bool :=
+  let pair_eqb := fun x y : B * Z => eqb (fst x) (fst y) && (snd x =? snd y) in
+  let accepted_of := fun acc ops gets =>
+    if dedupe then drop_repeats eqb (if uo then None else Some s0) (accepted_of acc ops gets) else accepted_of acc ops gets in
+  (List.length acc =? List.length ops)%nat && (List.length gets =? List.length ops)%nat &&
+  match uo, stream with
+  | false, seed :: changes =>
+      pair_eqb seed (view s0, t0) && list_eqb pair_eqb changes (accepted_of acc ops gets)
+      && eqb (last (map fst changes) (last gets s0)) (last gets s0)
+  | true, changes =>
+      list_eqb pair_eqb changes (accepted_of acc ops gets)
+      && (negb (existsb (fun b => b) acc) || eqb (last (map fst changes) s0) (last gets s0))
+  | false, [] => false
+  end.
+Definition pull_agrees {A B : Type} (eqb : B -> B -> bool) (step : B -> A -> option B) (view : B -> B)
+           (equiv : option (option B -> option B -> bool)) (uo : bool)
+           (s0 : B) (t0 : Z) (ops : list (A * Z)) (stream : list (B * Z)) : bool :=
+  list_eqb (fun x y : B * Z => eqb (fst x) (fst y) && (snd x =? snd y)) stream (tp_stream step view equiv uo s0 t0 ops).
+
 Definition C20_ok (c : c20case) : bool :=
   match c with
   | KParent pre o ret post => parent_ok pre o ret post
@@ -477,6 +660,13 @@ Definition C20_ok (c : c20case) : bool :=
   | KNew model dflt opts panicked obs => new_ok model dflt opts panicked obs
   | KVStore pre names_ok o obs post => vstore_ok pre names_ok o obs post
   | KFanMask ps pre req m obs post => fan_mask_ok ps pre req m obs post
+  | KMeterSeq pre o code ret post => meter_seq_ok pre o code ret post
+  | KSchema _ => true
+  | KStockMask _ pre req um code ret_ok post other_same => stock_mask_ok pre req um code ret_ok post other_same
+  | KPubs now pre o cands obs post hpre hpost => pubs_ok now pre o cands obs post hpre hpost
+  | KPullEL uo s0 t0 ops acc stream gets => pull_ok elev_eqb el_seed_view false uo s0 t0 ops acc stream gets
+  | KPullMeter uo s0 t0 ops acc stream gets => pull_ok mm_eqb (fun m => m) false uo s0 t0 ops acc stream gets
+  | KPullFan uo ps s0 t0 ops acc stream gets => pull_ok fan_eqb (fun m => m) true uo s0 t0 ops acc stream gets
   end.
 
 Definition C20_guard (c : c20case) : bool :=
@@ -498,6 +688,9 @@ Definition C20_guard (c : c20case) : bool :=
   | KNew model dflt opts _ _ => config_wf (model_nres model) (dflt ++ opts)
   | KVStore pre _ _ _ _ => vstate_wf pre
   | KFanMask ps pre _ _ _ _ => presets_wf ps && fan_consistent ps pre
+  | KMeterSeq _ _ _ _ _ | KSchema _ | KStockMask _ _ _ _ _ _ _ _ => true
+  | KPubs _ pre _ _ _ _ _ _ => store_wf pre
+  | KPullEL _ _ _ _ _ _ _ | KPullMeter _ _ _ _ _ _ _ | KPullFan _ _ _ _ _ _ _ _ => true
   end.
 
 Definition agrees (c : c20case) : bool :=
@@ -534,6 +727,13 @@ Definition agrees (c : c20case) : bool :=
   | KVStore pre _ o obs post => vstore_agrees pre o obs post
   | KFanMask ps pre req m obs post =>
       let '(o, p) := fan_update_masked ps pre req m in fout_eqb obs o && fan_eqb post p
+  | KMeterSeq pre o code ret post => meter_seq_agrees pre o code ret post
+  | KSchema dumped => schema_agrees meter_schema dumped && schema_agrees stock_schema dumped
+  | KStockMask name pre req um code _ post _ => stock_mask_agrees name pre req um code post
+  | KPubs now pre o cands obs post hpre hpost => pubs_agrees now pre o cands obs post hpre hpost
+  | KPullEL uo s0 t0 ops _ stream _ => pull_agrees elev_eqb el_pull_step el_seed_view None uo s0 t0 ops stream
+  | KPullMeter uo s0 t0 ops _ stream _ => pull_agrees mm_eqb mm_pull_step (fun m => m) None uo s0 t0 ops stream
+  | KPullFan uo ps s0 t0 ops _ stream _ => pull_agrees fan_eqb (fan_pull_step ps) (fun m => m) (Some (option_eqb fan_eqb)) uo s0 t0 ops stream
   end.
 
 Definition judge (c : c20case) : Z :=
